@@ -98,7 +98,7 @@ def drive(ctx, driver, inputs, mode="fmt", procs=None):
 
 
 def tla_rec(r, exp=None, pred=None, pp=None):
-    o = {k: r[k] for k in ("in", "toks", "lexend", "lexerr", "p1", "same", "fmt", "p2", "fmt2", "outcome")}
+    o = {k: r[k] for k in ("in", "wsx", "toks", "lexend", "lexerr", "p1", "same", "fmt", "p2", "fmt2", "outcome")}
     o["hasexp"] = exp is not None
     o["exp"] = exp if exp is not None else []
     o["haspred"] = pred is not None
@@ -176,6 +176,14 @@ def gather_inputs(ctx, pid, tier):
         for b in (b"# " + big + b'\nNAME := "unterminated\n', b'A := "' + big + b'"\ntask t {\n', b"task t() {\n    echo " + big + b"\n}\ntask u( {\n",
                   b"# c\n" + b'B := "' + big + b"\n", b"task t() {\n    echo ok\n}\n# " + big + b"\ntask (\n", b"V := " + big + b"(\"a\") x\n"):
             items.append((b, None, None, "longline"))
+        # a byte order mark (and other invisible prefixes) in front of otherwise ordinary files
+        for pre in (b"\xef\xbb\xbf", b"\xef\xbb\xbf\n", b"\xfe\xff", b"\x00", b"\xc2\xa0"):
+            for b in rt[:6] + HANDMADE[:3] + [b"", b"#", b"# c\n", b'A := "b"\n', b"task t() {}\n"]:
+                items.append((pre + b, None, None, "bom"))
+        # non-ASCII white space (NBSP, NEL, LINE SEPARATOR, IDEOGRAPHIC SPACE) where ASCII white space may stand
+        for u in ("\u00a0", "\u0085", "\u2028", "\u3000"):
+            for t in ('A :=%s"b"\n', 'task%st() {}\n', 'task t(%s"a.go") {\n    echo a\n}\n', '%s\n# c\n', 'task t() {\n%secho a\n}\n', 'A := "b"%s\n', "#%sc\n", 'task t() {%secho a%s}\n'):
+                items.append((t.replace("%s", u).encode("utf8"), None, None, "bom"))
         for b in HANDMADE:
             items.append((b, None, None, "handmade"))
             items.append((b.replace(b"\n", b"\r\n"), None, None, "handmade"))
